@@ -30,6 +30,31 @@ Proof.
 Qed.
 Print Assumptions C19_delivery_exact.
 
+(* A field of the event whose resolution fails is null in the message and makes the publish report an
+   error, but it is not a failed delivery: the subscriber whose Send succeeded stays registered
+   (only a failing Send removes it). *)
+Theorem C19_resolve_error_is_not_a_failed_delivery :
+  forall id ev (s : sub),
+    matches id s = true -> fst (send s) = false ->
+    pub1 id ev s = (Some (uid s, render (sel s) ev, true), Some (snd (send s))).
+Proof.
+  intros id ev s Hm Hs. unfold pub1. rewrite Hm. destruct (send s) as [fail s'] eqn:E. simpl in *. subst fail. reflexivity.
+Qed.
+Print Assumptions C19_resolve_error_is_not_a_failed_delivery.
+
+Theorem C19_publish_reports_failing_fields :
+  forall id ev (l : state) (s : sub),
+    In s l -> matches id s = true -> msg_bad (render (sel s) ev) = true ->
+    p_err (snd (a_publish id ev l)) = true.
+Proof.
+  intros id ev l s Hin Hm Hb. unfold a_publish. cbn [snd p_err]. apply orb_true_iff. right.
+  unfold dl_bad. apply existsb_exists.
+  exists (uid s, render (sel s) ev, negb (fst (send s))). split; [|exact Hb].
+  apply in_flat_map. exists (pub1 id ev s). split; [now apply in_map|].
+  unfold pub1. rewrite Hm. destruct (send s) as [fail s']. simpl. now left.
+Qed.
+Print Assumptions C19_publish_reports_failing_fields.
+
 (* Over a whole history: a subscriber's clean-up is called at most once, and it receives
    nothing after it (trace_ok [] t: no Deliver or Cleanup of an identity already cleaned up). *)
 Theorem C19_cleanup_once_nothing_after :
